@@ -17,7 +17,7 @@ What is proved (every classifier, table, input):
   (`tokenize_spans`) — scans each byte at most once: total at most `n`, whatever the number of tokens, lines or
   comments.  This is the mechanism whose earlier rescanning form made the cost quadratic.
 **Partial**: the parser, the serialisers and the scanner have no cost model; for them — and for the implementation of
-everything above — the decision is the measurement: user CPU time of each entry point on 30 input families at n, 2n,
+everything above — the decision is the measurement: user CPU time of each entry point on 31 input families at n, 2n,
 4n (and 8n on suspicion) in a child process.
 -/
 namespace GoSQLXModel.Props.C20
